@@ -131,3 +131,48 @@ for _cid in ('list4c', 'ifbody3', 'tuple3', 'dict3', 'modbody', 'uni_list', 'han
                           f'carrier {_cid}; history of two edits ({_o1} then {_o2}), 4 symbolic ints over Z; O-parse after each step, O-list after the second',
                           tier='quick' if (_cid in ('list4c', 'ifbody3', 'dict3') and _o2 == 'view_delitem') else 'thorough', budget=900, per_path=60,
                           out='histories longer than 2', reset=pc.reset_globals))
+
+# ---------------------------------------------------------------------------------------------------------------- T2
+from harness import tletter  # noqa: E402
+
+
+def _s_binop(f):
+    f.body[0].value.right.replace('b*c')
+
+
+def _s_binop2(f):
+    f.body[0].value.right.replace('b*c')
+    f.body[0].value.right.right.replace('p+q')
+
+
+def _s_list_put(f):
+    f.body[0].value.put_slice('p, q', 1, 2)
+
+
+def _s_fdebug(f):
+    f.body[0].value.args[1].values[1].value.replace('abc.d')
+
+
+def _s_call_kw(f):
+    f.body[0].value.keywords[0].value.replace('w + 1')
+
+
+def _s_stmt_insert(f):
+    f.body[0].insert('z = 2', 1, 'body')
+
+
+def _s_del_elt(f):
+    del f.body[0].value.elts[1]
+
+
+LETTER = [
+    ('binop_replace', 's = "¡" + a  # ¢\nt = 1\n', _s_binop, 'quick'),
+    ('binop_replace_twice', 's = "¡" + a  # ¢\nt = 1\n', _s_binop2, 'quick'),
+    ('list_put_slice', 'x = ["¡", a,  # ¢\n     b, "£"]\n', _s_list_put, 'quick'),
+    ('fstring_debug_replace', 'print("¡", f"{a=}")\n', _s_fdebug, 'quick'),
+    ('call_kw_replace', 'r = f("¡", k=v)  # ¢\n', _s_call_kw, 'thorough'),
+    ('stmt_insert', 'if c:  # ¡\n    x = "¢"  # £\n    y = 1\n', _s_stmt_insert, 'thorough'),
+    ('tuple_del_elt', 'x = ("¡", a, "¢", b)\n', _s_del_elt, 'thorough'),
+]
+for _n, _src, _scr, _tier in LETTER:
+    CELLS.append(tletter.letter_cell('T2', _n, _src, _scr, tier=_tier))
